@@ -23,7 +23,31 @@ def rowsKept (db db' : Db ρ) : Prop := ∀ o rows, db.tab o = some rows → db'
 theorem latest_facts : latest facts = 1 := by decide
 theorem schemaVersion_is_latest : facts.schemaVersion = latest facts := by decide
 
-/-- case analysis used by all proofs: four classes of `user_version` × 2^5 object subsets -/
+theorem migrate_current (db : Db ρ) (h : db.uv = 1) : migrate facts db = (.ok, db) := by
+  simp [migrate, latest_facts, h]
+theorem migrate_newer (db : Db ρ) (h : 1 < db.uv) : migrate facts db = (.refuse, db) := by
+  have : db.uv ≠ 1 := by omega
+  simp [migrate, latest_facts, this, h]
+
+/-- the migration loop when the local `uv` is below every migration version (here: `uv < 1`) -/
+theorem run_below (uv : Int) (h : uv < 1) (db : Db ρ) :
+    runMigrations uv facts.migrations db = runMigrations 0 facts.migrations db := by
+  have h4 : ¬ (1:Int) ≤ uv := by omega
+  simp [facts, runMigrations, h4]
+
+theorem migrate_zero (db : Db ρ) (h : db.uv = 0) : migrate facts db =
+    if looksLikeV1 facts db then (.ok, { db with uv := 1 })
+    else if hasAnyV1 facts db then (.refuse, db) else runMigrations 0 facts.migrations db := by
+  unfold migrate
+  rw [latest_facts, if_neg (by omega), if_neg (by omega), if_pos h]
+  split
+  · simp [facts, runMigrations]
+  · rfl
+theorem migrate_neg (db : Db ρ) (h : db.uv < 0) : migrate facts db = runMigrations 0 facts.migrations db := by
+  unfold migrate
+  rw [latest_facts, if_neg (by omega), if_neg (by omega), if_neg (by omega)]
+  exact run_below _ (by omega) _
+
 macro "c24_split" db:ident : tactic => `(tactic| (
   rcases hk : Db.tab $db .keyTrackers with _ | rk <;>
   rcases hs : Db.tab $db .simpleEntries with _ | rs <;>
@@ -32,83 +56,85 @@ macro "c24_split" db:ident : tactic => `(tactic| (
   rcases hx : Db.tab $db .idxHash with _ | rx))
 
 macro "c24_simp" : tactic => `(tactic|
-  simp_all [openDb, migrate, prepare, runMigrations, applyMigration, createAll, create, looksLikeV1, hasAnyV1,
-    present, upd, facts, latest, tablesPresent, complete, rowsKept, Obj.tables, Obj.all])
+  simp [*, openDb, prepare, runMigrations, applyMigration, createAll, create, looksLikeV1, hasAnyV1,
+    present, upd, facts, tablesPresent, complete, rowsKept, Obj.tables, Obj.all])
 
-/-- The decision table: `New` succeeds exactly for
-`user_version = current` with the four tables, `user_version = 0` with all five objects (legacy) or
-none of them (fresh), and negative `user_version` (every migration is applied with IF NOT EXISTS). -/
+/-- The decision table: `New` succeeds exactly for `user_version = current` with the four tables,
+`user_version = 0` with all five objects (legacy) or none of them (fresh), and negative
+`user_version` (the migration is applied with IF NOT EXISTS on whatever is there). -/
 theorem open_outcome_table (db : Db ρ) :
     (openDb facts db).1 = .ok ↔
       (db.uv = 1 ∧ tablesPresent db) ∨ (db.uv = 0 ∧ (complete db ∨ ∀ o ∈ Obj.all, present db o = false)) ∨ db.uv < 0 := by
   by_cases h1 : db.uv = 1
-  · c24_split db <;> c24_simp
+  · have hm := migrate_current db h1
+    unfold openDb; rw [hm]
+    c24_split db <;> c24_simp
   · by_cases h2 : db.uv > 1
-    · have : ¬ db.uv = 0 := by omega
+    · have hm := migrate_newer db h2
+      have : ¬ db.uv = 0 := by omega
       have : ¬ db.uv < 0 := by omega
+      unfold openDb; rw [hm]
       c24_simp
     · by_cases h0 : db.uv = 0
-      · c24_split db <;> c24_simp
-      · have hn : db.uv < 0 := by omega
-        have : ¬ (1 : Int) ≤ db.uv := by omega
+      · have hm := migrate_zero db h0
+        unfold openDb; rw [hm]
         c24_split db <;> c24_simp
+      · have hn : db.uv < 0 := by omega
+        have hm := migrate_neg db hn
+        unfold openDb; rw [hm]
+        c24_split db <;> c24_simp
+
+/-- what the property demands of the result `r` of opening `db` -/
+def Safe (db : Db ρ) (r : Outcome × Db ρ) : Prop :=
+  (r.1 = .ok → r.2.uv = facts.schemaVersion ∧ tablesPresent r.2 ∧ rowsKept db r.2 ∧ (complete r.2 ∨ db.uv = latest facts)) ∧
+  (r.1 = .refuse → r.2 = db)
+
+/-- C24 over every database (any `user_version : Int`, any of the 2^5 object subsets, any rows): a
+successful open ends at the current version, all tables present, every pre-existing row in place, and
+the schema complete unless the file was already stamped current; a refused open changes nothing. -/
+theorem open_safe (db : Db ρ) : Safe db (openDb facts db) := by
+  unfold Safe; rw [latest_facts]
+  by_cases h1 : db.uv = 1
+  · have hm := migrate_current db h1
+    unfold openDb; rw [hm]
+    c24_split db <;> c24_simp
+  · by_cases h2 : db.uv > 1
+    · have hm := migrate_newer db h2
+      unfold openDb; rw [hm]
+      c24_simp
+    · by_cases h0 : db.uv = 0
+      · have hm := migrate_zero db h0
+        unfold openDb; rw [hm]
+        c24_split db <;> c24_simp <;> (try (intro o; cases o <;> simp [*]))
+      · have hn : db.uv < 0 := by omega
+        have hm := migrate_neg db hn
+        unfold openDb; rw [hm]
+        c24_split db <;> c24_simp <;> (try (intro o; cases o <;> simp [*]))
 
 /-- A refused open leaves the database exactly as it was (version, schema, rows). In particular the
 legacy stamp (`user_version := 1`, written outside a transaction) is never followed by a refusal. -/
-theorem open_refuse_unchanged (db : Db ρ) (h : (openDb facts db).1 = .refuse) : (openDb facts db).2 = db := by
-  by_cases h1 : db.uv = 1
-  · c24_split db <;> c24_simp
-  · by_cases h2 : db.uv > 1
-    · c24_simp
-    · by_cases h0 : db.uv = 0
-      · c24_split db <;> c24_simp
-      · have : ¬ (1 : Int) ≤ db.uv := by omega
-        c24_split db <;> c24_simp
+theorem open_refuse_unchanged (db : Db ρ) (h : (openDb facts db).1 = .refuse) : (openDb facts db).2 = db :=
+  (open_safe db).2 h
 
 /-- A successful open ends at the current version with all four tables usable and every existing row
 still in place. -/
 theorem open_ok_preserves (db : Db ρ) (h : (openDb facts db).1 = .ok) :
     (openDb facts db).2.uv = facts.schemaVersion ∧ tablesPresent (openDb facts db).2 ∧
-      rowsKept db (openDb facts db).2 := by
-  by_cases h1 : db.uv = 1
-  · c24_split db <;> c24_simp
-  · by_cases h2 : db.uv > 1
-    · c24_simp
-    · by_cases h0 : db.uv = 0
-      · c24_split db <;> c24_simp <;> (try (intro o; cases o <;> simp_all))
-      · have : ¬ (1 : Int) ≤ db.uv := by omega
-        c24_split db <;> c24_simp <;> (try (intro o; cases o <;> simp_all))
+      rowsKept db (openDb facts db).2 :=
+  let ⟨a, b, c, _⟩ := (open_safe db).1 h; ⟨a, b, c⟩
 
-/-- FULL statement (DESIGN `open_safe`): `ok → complete ∧ uv = current ∧ rows kept; refuse → unchanged`.
-It is FALSE of the code for exactly one family (see `open_ok_incomplete_witness`): a database already
-stamped `user_version = 1` whose `idx_hash` is missing is opened as-is (`migrate` returns early and
-`prepareStatements` does not need the index).  Proved: the full statement for every database that
-is not already stamped current. -/
-theorem open_safe_partial (db : Db ρ) (hne : db.uv ≠ latest facts) :
+/-- FULL statement (DESIGN `open_safe`): `ok → complete ∧ uv = current ∧ rows kept; refuse → unchanged`
+for every database.  It is FALSE of the code for exactly one family (`open_ok_incomplete_witness`): a
+database already stamped `user_version = 1` whose `idx_hash` is missing is opened as-is (`migrate`
+returns early, `prepareStatements` does not need the index).  Proved here: the full statement for
+every database that is not already stamped current. -/
+theorem open_schema_complete_partial (db : Db ρ) (hne : db.uv ≠ latest facts) :
     ((openDb facts db).1 = .ok →
         complete (openDb facts db).2 ∧ (openDb facts db).2.uv = facts.schemaVersion ∧ rowsKept db (openDb facts db).2) ∧
     ((openDb facts db).1 = .refuse → (openDb facts db).2 = db) := by
-  refine ⟨fun h => ⟨?_, (open_ok_preserves db h).1, (open_ok_preserves db h).2.2⟩, open_refuse_unchanged db⟩
-  have h1 : ¬ db.uv = 1 := by rw [latest_facts] at hne; exact hne
-  by_cases h2 : db.uv > 1
-  · c24_simp
-  · by_cases h0 : db.uv = 0
-    · c24_split db <;> c24_simp
-    · have : ¬ (1 : Int) ≤ db.uv := by omega
-      c24_split db <;> c24_simp
-
-/-- The same for every database, with the index caveat explicit. -/
-theorem open_safe (db : Db ρ) :
-    ((openDb facts db).1 = .ok →
-        (openDb facts db).2.uv = facts.schemaVersion ∧ tablesPresent (openDb facts db).2 ∧
-        rowsKept db (openDb facts db).2 ∧ (complete (openDb facts db).2 ∨ db.uv = latest facts)) ∧
-    ((openDb facts db).1 = .refuse → (openDb facts db).2 = db) := by
   refine ⟨fun h => ?_, open_refuse_unchanged db⟩
-  obtain ⟨a, b, c⟩ := open_ok_preserves db h
-  refine ⟨a, b, c, ?_⟩
-  by_cases hne : db.uv = latest facts
-  · exact Or.inr hne
-  · exact Or.inl ((open_safe_partial db hne).1 h).1
+  obtain ⟨a, _, c, d⟩ := (open_safe db).1 h
+  exact ⟨d.resolve_right hne, a, c⟩
 
 /-- The exception is real: stamped-current database, four tables, no index → opened, index still missing. -/
 def staleIndexDb : Db Nat :=
